@@ -594,17 +594,236 @@ theorem invMixColumns_words_partial (s : Bytes) (h : s.length = 16) (c : Nat) (h
   · exact (invMixWord_X a8 a9 a10 a11).symm
   · exact (invMixWord_X a12 a13 a14 a15).symm
 
-/-
-K2 (not proved here):
+/-! ## K2: the swap loop -/
+
+/-- the reading function after k words of rows i.. and j.. have been exchanged -/
+def sr (f : Nat → UInt32) (i j k m : Nat) : UInt32 :=
+  if i ≤ m ∧ m < i + k then f (j + (m - i)) else if j ≤ m ∧ m < j + k then f (i + (m - j)) else f m
+
+theorem sr_zero (f : Nat → UInt32) (i j m : Nat) : sr f i j 0 m = f m := by
+  unfold sr
+  rw [if_neg (by omega), if_neg (by omega)]
+
+theorem swap_stage (f : Nat → UInt32) (a a' : Array UInt32) (i j k : Nat) (hsz : a.size = 60)
+    (h : ∀ m, a.getD m 0 = sr f i j k m) (hij : i + 4 ≤ j) (hj : j + 4 ≤ 60) (hk : k < 4)
+    (ha' : a' = (a.setIfInBounds (i + k) (a.getD (j + k) 0)).setIfInBounds (j + k) (a.getD (i + k) 0)) :
+    a'.size = 60 ∧ ∀ m, a'.getD m 0 = sr f i j (k + 1) m := by
+  subst ha'
+  refine ⟨by simp [hsz], ?_⟩
+  intro m
+  rw [getD_setIfInBounds _ _ _ _ (by simp [hsz]; omega), getD_setIfInBounds _ _ _ _ (by rw [hsz]; omega)]
+  simp only [h]
+  unfold sr
+  repeat' split
+  all_goals first | rfl | omega | (congr 1; omega)
+
+theorem swapLoop_step (fuel : Nat) (a : Array UInt32) (i j : Nat) (a1 a2 a3 a4 : Array UInt32)
+    (h1 : a1 = (a.setIfInBounds (i + 0) (a.getD (j + 0) 0)).setIfInBounds (j + 0) (a.getD (i + 0) 0))
+    (h2 : a2 = (a1.setIfInBounds (i + 1) (a1.getD (j + 1) 0)).setIfInBounds (j + 1) (a1.getD (i + 1) 0))
+    (h3 : a3 = (a2.setIfInBounds (i + 2) (a2.getD (j + 2) 0)).setIfInBounds (j + 2) (a2.getD (i + 2) 0))
+    (h4 : a4 = (a3.setIfInBounds (i + 3) (a3.getD (j + 3) 0)).setIfInBounds (j + 3) (a3.getD (i + 3) 0)) :
+    Rijndael.swapLoop (fuel + 1) a i j = if i < j then Rijndael.swapLoop fuel a4 (i + 4) (j - 4) else a := by
+  subst h4 h3 h2 h1
+  rfl
+
+/-- rows below t and above nr - t have been exchanged with their mirror images -/
+def swT (nr : Nat) (g : Nat → UInt32) (t m : Nat) : UInt32 :=
+  if m < 4 * t then g (4 * (nr - m / 4) + m % 4)
+  else if 4 * (nr - t) + 4 ≤ m ∧ m < 4 * (nr + 1) then g (4 * (nr - m / 4) + m % 4)
+  else g m
+
+theorem swapLoop_ok (nr : Nat) (g : Nat → UInt32) (hnr : nr ≤ 14) : ∀ fuel a t, nr ≤ fuel + 2 * t → 2 * t ≤ nr + 1 →
+    a.size = 60 → (∀ m, a.getD m 0 = swT nr g t m) →
+    (Rijndael.swapLoop fuel a (4 * t) (4 * (nr - t))).size = 60 ∧
+    ∀ m, m < 4 * (nr + 1) →
+      (Rijndael.swapLoop fuel a (4 * t) (4 * (nr - t))).getD m 0 = g (4 * (nr - m / 4) + m % 4) := by
+  have hexit : ∀ (a : Array UInt32) t, nr ≤ 2 * t → 2 * t ≤ nr + 1 → (∀ m, a.getD m 0 = swT nr g t m) →
+      ∀ m, m < 4 * (nr + 1) → a.getD m 0 = g (4 * (nr - m / 4) + m % 4) := by
+    intro a t h1 h2 h m hm
+    rw [h m]
+    unfold swT
+    repeat' split
+    all_goals first | rfl | omega | (congr 1; omega)
+  intro fuel
+  induction fuel with
+  | zero =>
+    intro a t hf ht hsz h
+    exact ⟨hsz, hexit a t (by omega) ht h⟩
+  | succ fuel ih =>
+    intro a t hf ht hsz h
+    obtain ⟨a1, h1⟩ : ∃ x, x = (a.setIfInBounds (4 * t + 0) (a.getD (4 * (nr - t) + 0) 0)).setIfInBounds
+      (4 * (nr - t) + 0) (a.getD (4 * t + 0) 0) := ⟨_, rfl⟩
+    obtain ⟨a2, h2⟩ : ∃ x, x = (a1.setIfInBounds (4 * t + 1) (a1.getD (4 * (nr - t) + 1) 0)).setIfInBounds
+      (4 * (nr - t) + 1) (a1.getD (4 * t + 1) 0) := ⟨_, rfl⟩
+    obtain ⟨a3, h3⟩ : ∃ x, x = (a2.setIfInBounds (4 * t + 2) (a2.getD (4 * (nr - t) + 2) 0)).setIfInBounds
+      (4 * (nr - t) + 2) (a2.getD (4 * t + 2) 0) := ⟨_, rfl⟩
+    obtain ⟨a4, h4⟩ : ∃ x, x = (a3.setIfInBounds (4 * t + 3) (a3.getD (4 * (nr - t) + 3) 0)).setIfInBounds
+      (4 * (nr - t) + 3) (a3.getD (4 * t + 3) 0) := ⟨_, rfl⟩
+    rw [swapLoop_step fuel a (4 * t) (4 * (nr - t)) a1 a2 a3 a4 h1 h2 h3 h4]
+    by_cases hlt : 4 * t < 4 * (nr - t)
+    · rw [if_pos hlt]
+      have hij : 4 * t + 4 ≤ 4 * (nr - t) := by omega
+      have hj : 4 * (nr - t) + 4 ≤ 60 := by omega
+      have s0 : ∀ m, a.getD m 0 = sr (fun m => a.getD m 0) (4 * t) (4 * (nr - t)) 0 m :=
+        fun m => (sr_zero (fun m => a.getD m 0) _ _ m).symm
+      obtain ⟨z1, s1⟩ := swap_stage _ a a1 _ _ 0 hsz s0 hij hj (by omega) h1
+      obtain ⟨z2, s2⟩ := swap_stage _ a1 a2 _ _ 1 z1 s1 hij hj (by omega) h2
+      obtain ⟨z3, s3⟩ := swap_stage _ a2 a3 _ _ 2 z2 s2 hij hj (by omega) h3
+      obtain ⟨z4, s4⟩ := swap_stage _ a3 a4 _ _ 3 z3 s3 hij hj (by omega) h4
+      have e1 : 4 * t + 4 = 4 * (t + 1) := by omega
+      have e2 : 4 * (nr - t) - 4 = 4 * (nr - (t + 1)) := by omega
+      rw [e1, e2]
+      refine ih a4 (t + 1) (by omega) (by omega) z4 ?_
+      intro m
+      rw [s4 m]
+      unfold sr
+      simp only [h]
+      unfold swT
+      repeat' split
+      all_goals first | rfl | omega | (congr 1; omega)
+    · rw [if_neg hlt]
+      exact ⟨hsz, hexit a t (by omega) ht h⟩
+
+/-! ## K2: the InvMixColumns loop -/
+
+/-- the reading function after the words o .. o + k - 1 have been replaced by their `invMixWord` -/
+def st (f : Nat → UInt32) (o k m : Nat) : UInt32 :=
+  if o ≤ m ∧ m < o + k then Rijndael.invMixWord (f m) else f m
+
+theorem mix_stage (f : Nat → UInt32) (a a' : Array UInt32) (o k : Nat) (hsz : a.size = 60)
+    (h : ∀ m, a.getD m 0 = st f o k m) (ho : o + k < 60)
+    (ha' : a' = Rijndael.wr a o k (Rijndael.invMixWord (Rijndael.rd a o k))) :
+    a'.size = 60 ∧ ∀ m, a'.getD m 0 = st f o (k + 1) m := by
+  subst ha'
+  unfold Rijndael.wr Rijndael.rd
+  refine ⟨by simp [hsz], ?_⟩
+  intro m
+  rw [getD_setIfInBounds _ _ _ _ (by rw [hsz]; omega)]
+  simp only [h]
+  unfold st
+  repeat' split
+  all_goals first | rfl | omega | (congr 2; omega)
+
+theorem invMixLoop_step (cnt : Nat) (a : Array UInt32) (off : Nat) (a1 a2 a3 a4 : Array UInt32)
+    (h1 : a1 = Rijndael.wr a (off + 4) 0 (Rijndael.invMixWord (Rijndael.rd a (off + 4) 0)))
+    (h2 : a2 = Rijndael.wr a1 (off + 4) 1 (Rijndael.invMixWord (Rijndael.rd a1 (off + 4) 1)))
+    (h3 : a3 = Rijndael.wr a2 (off + 4) 2 (Rijndael.invMixWord (Rijndael.rd a2 (off + 4) 2)))
+    (h4 : a4 = Rijndael.wr a3 (off + 4) 3 (Rijndael.invMixWord (Rijndael.rd a3 (off + 4) 3))) :
+    Rijndael.invMixLoop (cnt + 1) a off = Rijndael.invMixLoop cnt a4 (off + 4) := by
+  subst h4 h3 h2 h1
+  rfl
+
+theorem invMixLoop_ok (g : Nat → UInt32) : ∀ cnt a s, 4 + 4 * (s + cnt) + 4 ≤ 60 → a.size = 60 →
+    (∀ m, a.getD m 0 = st g 4 (4 * s) m) →
+    (Rijndael.invMixLoop cnt a (4 * s)).size = 60 ∧
+    ∀ m, (Rijndael.invMixLoop cnt a (4 * s)).getD m 0 = st g 4 (4 * (s + cnt)) m := by
+  intro cnt
+  induction cnt with
+  | zero =>
+    intro a s _ hsz h
+    exact ⟨hsz, h⟩
+  | succ cnt ih =>
+    intro a s hb hsz h
+    obtain ⟨a1, h1⟩ : ∃ x, x = Rijndael.wr a (4 * s + 4) 0 (Rijndael.invMixWord (Rijndael.rd a (4 * s + 4) 0)) := ⟨_, rfl⟩
+    obtain ⟨a2, h2⟩ : ∃ x, x = Rijndael.wr a1 (4 * s + 4) 1 (Rijndael.invMixWord (Rijndael.rd a1 (4 * s + 4) 1)) := ⟨_, rfl⟩
+    obtain ⟨a3, h3⟩ : ∃ x, x = Rijndael.wr a2 (4 * s + 4) 2 (Rijndael.invMixWord (Rijndael.rd a2 (4 * s + 4) 2)) := ⟨_, rfl⟩
+    obtain ⟨a4, h4⟩ : ∃ x, x = Rijndael.wr a3 (4 * s + 4) 3 (Rijndael.invMixWord (Rijndael.rd a3 (4 * s + 4) 3)) := ⟨_, rfl⟩
+    rw [invMixLoop_step cnt a (4 * s) a1 a2 a3 a4 h1 h2 h3 h4]
+    have s0 : ∀ m, a.getD m 0 = st (fun m => a.getD m 0) (4 * s + 4) 0 m := by
+      intro m
+      unfold st
+      rw [if_neg (by omega)]
+    obtain ⟨z1, s1⟩ := mix_stage _ a a1 _ 0 hsz s0 (by omega) h1
+    obtain ⟨z2, s2⟩ := mix_stage _ a1 a2 _ 1 z1 s1 (by omega) h2
+    obtain ⟨z3, s3⟩ := mix_stage _ a2 a3 _ 2 z2 s2 (by omega) h3
+    obtain ⟨z4, s4⟩ := mix_stage _ a3 a4 _ 3 z3 s3 (by omega) h4
+    have e1 : 4 * s + 4 = 4 * (s + 1) := by omega
+    have e2 : s + (cnt + 1) = (s + 1) + cnt := by omega
+    rw [e1, e2]
+    refine ih a4 (s + 1) (by omega) z4 ?_
+    intro m
+    rw [s4 m]
+    unfold st
+    simp only [h]
+    unfold st
+    repeat' split
+    all_goals first | rfl | omega
+
+/-! ## K2: assembly -/
+
+theorem getD_reverse (l : List Bytes) (r : Nat) (hr : r < l.length) :
+    l.reverse.getD r [] = l.getD (l.length - 1 - r) [] := by
+  rw [List.getD_eq_getElem?_getD, List.getD_eq_getElem?_getD, List.getElem?_reverse hr]
+
+theorem keySetupDec_of_enc (key : Bytes) (nk nr : Nat) (hnk : key.length / 4 = nk) (hnr : nr = nk + 6)
+    (h4 : 4 ≤ key.length) (hnr14 : nr ≤ 14) (hnr2 : 2 ≤ nr) (rk : Array UInt32)
+    (he : Rijndael.keySetupEnc key = some (rk, nr)) (ag : Agree rk (4 * (nr + 1)) (W nk (keyW key))) :
+    ∃ rk', Rijndael.keySetupDec key = some (rk', nr) ∧ RkOK rk' (eqInvKeys (keyExpansion key)).reverse := by
+  refine ⟨Rijndael.invMixLoop (nr - 1) (Rijndael.swapLoop (nr + 1) rk 0 (4 * nr)) 0, ?_, ?_⟩
+  · simp only [Rijndael.keySetupDec, he]
+  · obtain ⟨hl, hw⟩ := keyExpansion_W key h4
+    rw [hnk, ← hnr] at hl hw
+    obtain ⟨hne, h16⟩ := Relic.Lemmas.Aes.keyExpansion_length_of_ge key h4
+    -- the swap loop
+    have hs0 : ∀ m, rk.getD m 0 = swT nr (fun m => rk.getD m 0) 0 m := by
+      intro m
+      unfold swT
+      rw [if_neg (by omega), if_neg (by omega)]
+    obtain ⟨zs, hs⟩ := swapLoop_ok nr (fun m => rk.getD m 0) hnr14 (nr + 1) rk 0 (by omega) (by omega) ag.1 hs0
+    have e0 : 4 * (nr - 0) = 4 * nr := rfl
+    rw [Nat.mul_zero, e0] at zs hs
+    generalize Rijndael.swapLoop (nr + 1) rk 0 (4 * nr) = sw at zs hs
+    -- the InvMixColumns loop
+    have hm0 : ∀ m, sw.getD m 0 = st (fun m => sw.getD m 0) 4 (4 * 0) m := by
+      intro m
+      unfold st
+      rw [if_neg (by omega)]
+    obtain ⟨_, hm⟩ := invMixLoop_ok (fun m => sw.getD m 0) (nr - 1) sw 0 (by omega) zs hm0
+    rw [Nat.mul_zero] at hm
+    generalize Rijndael.invMixLoop (nr - 1) sw 0 = fin at hm
+    -- comparison with the specification
+    intro r hr c hc
+    rw [List.length_reverse, Relic.Lemmas.AesEqInv.eqInvKeys_length _ hne, hl] at hr
+    rw [getD_reverse _ _ (by rw [Relic.Lemmas.AesEqInv.eqInvKeys_length _ hne, hl]; exact hr),
+      Relic.Lemmas.AesEqInv.eqInvKeys_length _ hne, hl,
+      Relic.Lemmas.AesEqInv.eqInvKeys_getD _ _ (by rw [hl]; omega), hl]
+    have hsw : sw.getD (4 * r + c) 0 = Rijndael.getu32 ((keyExpansion key).getD (nr + 1 - 1 - r) []) (4 * c) := by
+      rw [hs (4 * r + c) (by omega), hw (nr + 1 - 1 - r) (by omega) c hc]
+      show rk.getD _ 0 = _
+      rw [ag.2 _ (by omega)]
+      congr 1
+      omega
+    rw [hm (4 * r + c)]
+    unfold st
+    split
+    · rename_i hmid
+      rw [if_neg (by omega), hsw]
+      exact (invMixColumns_words_partial _
+        (Relic.Lemmas.Aes.getD_length16 _ h16 _ (by rw [hl]; omega)) c hc).symm
+    · rename_i hmid
+      rw [if_pos (by omega)]
+      exact hsw
+
+/-- K2: the decryption key schedule of the C text writes the round keys of the FIPS 197 §5.3.5 equivalent inverse
+cipher, last round key first, for every key -/
 theorem keySetupDec_ok (key : Bytes) (hk : key.length = 16 ∨ key.length = 24 ∨ key.length = 32) :
     ∃ rk, Rijndael.keySetupDec key = some (rk, key.length / 4 + 6) ∧
-      RkOK rk (eqInvKeys (keyExpansion key)).reverse
-Available: `keySetupEnc_ok` (the array before the two loops), `invMixColumns_words_partial` / `invMixWord_X` (what one
-assignment of `invMixLoop` computes).  Missing: the induction over `swapLoop` (after it rk[4r + c] is the old
-rk[4(Nr - r) + c] for r ≤ Nr) and over `invMixLoop` (words 4 .. 4·Nr - 1 are replaced by their `invMixWord`, the others are
-kept), with the `setIfInBounds` / `getD` bookkeeping as in `Agree.wr`, and the final comparison with
-`eqInvKeys_getD` and `List.getD` of a reversed list.
--/
+      RkOK rk (eqInvKeys (keyExpansion key)).reverse := by
+  rcases hk with h | h | h
+  · obtain ⟨rk, e, ag⟩ := keySetupEnc_128 key h
+    have hnk : key.length / 4 = 4 := by omega
+    rw [hnk]
+    exact keySetupDec_of_enc key 4 10 hnk rfl (by omega) (by omega) (by omega) rk e ag
+  · obtain ⟨rk, e, ag⟩ := keySetupEnc_192 key h
+    have hnk : key.length / 4 = 6 := by omega
+    rw [hnk]
+    exact keySetupDec_of_enc key 6 12 hnk rfl (by omega) (by omega) (by omega) rk e ag
+  · obtain ⟨rk, e, ag⟩ := keySetupEnc_256 key h
+    have hnk : key.length / 4 = 8 := by omega
+    rw [hnk]
+    exact keySetupDec_of_enc key 8 14 hnk rfl (by omega) (by omega) (by omega) rk e ag
+
+#print axioms keySetupDec_ok
 
 end Relic.Lemmas.Rijndael.Key
 
